@@ -13,7 +13,7 @@ const ruleText = "a case is one sandbox (component fst|ds|upd, root at depth 1-4
 	"existing entries, mixes of '.', '..', empty segments and odd segments, climbs of 1..depth+3 parent references followed by a sibling / " +
 	"ancestor / the root's own name, absolute paths (below the root, the root itself with suffixes '/', '/.', '/..', '-other', 'x', siblings, " +
 	"sandbox top, '/'), relative scan roots against several working directories, zip archives with 1-5 such entry names; a separate stream " +
-	"(implementation + oracle only) has NUL bytes, 300-byte segments and 60-fold climbs. lib cases compare filepath.Clean/Dir/Join/Rel and " +
+	"(implementation + oracle only) has NUL bytes, 300-byte segments and climbs of depth+6. lib cases compare filepath.Clean/Dir/Join/Rel and " +
 	"path.Base with the model on every string over {'/','.','a'} up to length 6 (pairs up to length 3) and on random strings. " +
 	"A case is non-trivial if at least one of its names contains a parent reference, an absolute prefix or a sibling name; distinct by the hash of its lines."
 
@@ -125,7 +125,7 @@ func (g *gctx) relName() (string, string) {
 			s = append(s, anc[from:len(anc)-1]...)
 			s = append(s, pick(rng, append(g.siblings(), g.rootName)))
 		default:
-			s = append(s, pick(rng, []string{"etc", "w", "other", "SBX7", "top.txt"}))
+			s = append(s, pick(rng, []string{"etc", "w", "other", "sb", "top.txt"}))
 		}
 		for i := rng.Intn(3); i > 0; i-- {
 			if rng.Intn(2) == 0 {
@@ -184,7 +184,7 @@ func (g *gctx) absName() (string, string) {
 		return p, "ancestor"
 	case x < 88:
 		g.hostile = true
-		return pick(rng, []string{"/", "/etc/c18-never", "/dev/shm/c18-never/x", SB, SB + "/", "//", "/.."}), "absolute"
+		return pick(rng, []string{"/", "/dev/shm/verif-c18.never/x", "/var/tmp/verif-c18.never/x", SB, SB + "/", "//", "/.."}), "absolute"
 	default:
 		n, cls := g.relName()
 		return n, "relative+" + cls
@@ -348,7 +348,7 @@ func generate(r *hxlib.Run, emit func(hxlib.Case)) {
 				case 0:
 					name = "a\x00/../../" + g.rootName + "-other/x"
 				case 1:
-					name = strings.Repeat("../", 60) + "etc/c18-never"
+					name = strings.Repeat("../", g.depth+6) + "etc/c18-never" // stays inside the disposable case directory
 				case 2:
 					name = strings.Repeat("z", 300) + "/../../" + g.rootName + "-other/evil"
 				default:
